@@ -48,7 +48,12 @@ class KeyMap:
             else:
                 v = i
         elif kd == "f":
-            v = struct.pack(">H", i + self.span)
+            if md == "extreme":   # three zones: hugging b"\x00\x00", straddling first byte 0x7f / 0x80, hugging b"\xff\xff"
+                n = (i + self.span) if i < 4 else (0x8000 + (i - 8)) if i < 12 else 0xffff - (self.span - i)
+            else:
+                n = i + self.span
+            assert 0 <= n <= 0xffff, (i, n)
+            v = struct.pack(">H", n)
         else:
             raise ValueError(kd)
         self._fwd[i] = v
@@ -108,7 +113,7 @@ class Family:
             return ["small", "extreme"]
         if self.kk == "O":
             return ["int", "none-int", "str", "tuple"]
-        return ["small"]
+        return ["small", "extreme"]
 
     def valmap(self):
         return ValMap(self.vk)
